@@ -73,13 +73,17 @@ type SeqStats struct {
 
 // seqOpts selects optional behaviour of the runner.
 type seqOpts struct {
-	Skip        map[string]bool // op kinds executed as no-ops (for attribution)
-	FullReopen  bool            // reopen compares snapshot / rescan / unusable-snapshot copies (C02)
-	AfterQuiet  func(r *seqRunner, step int, what string) *Violation
-	TrackGC     bool // hash the directory around GC cycles
-	KeepDir     bool
-	NoFinalIter bool
-	Points      *pointCounter // counts named points passed during the run
+	Skip          map[string]bool // op kinds executed as no-ops (for attribution)
+	FullReopen    bool            // reopen compares snapshot / rescan / unusable-snapshot copies (C02)
+	AfterQuiet    func(r *seqRunner, step int, what string) *Violation
+	AfterClose    func(r *seqRunner, step int) *Violation // called with the store closed
+	Epilogue      func(r *seqRunner, step int) *Violation // runs after the last op, before the final read-back
+	FlushBeforeGC bool                                    // every GC action is preceded by a Flush
+	FixedLowUse   int                                     // >0: primary GC always uses this threshold
+	TrackGC       bool                                    // hash the directory around GC cycles
+	KeepDir       bool
+	NoFinalIter   bool
+	Points        *pointCounter // counts named points passed during the run
 }
 
 type seqRunner struct {
@@ -162,6 +166,12 @@ func runSeq(c SeqCase, o seqOpts) (st SeqStats, v *Violation) {
 		}
 	}
 	n := len(c.Ops)
+	if o.Epilogue != nil {
+		v = guard(n, "epilogue", func() *Violation { return o.Epilogue(r, n) })
+		if v != nil {
+			return r.stats, v
+		}
+	}
 	v = guard(n, "final", func() *Violation {
 		if v := r.checkAll(n, "final"); v != nil {
 			return v
@@ -191,6 +201,9 @@ func runSeq(c SeqCase, o seqOpts) (st SeqStats, v *Violation) {
 		}
 		if err = s.Close(); err != nil {
 			return viol("close-error|final|second-close", n, "second Close: %v", err)
+		}
+		if o.AfterClose != nil {
+			return o.AfterClose(r, n)
 		}
 		return nil
 	})
@@ -524,6 +537,11 @@ func (r *seqRunner) doReopen(i int, op Op) *Violation {
 	if v := r.closeStore(i, opReopen); v != nil {
 		return v
 	}
+	if r.o.AfterClose != nil {
+		if v := r.o.AfterClose(r, i); v != nil {
+			return v
+		}
+	}
 	if r.stats.IndexFiles > 1 {
 		r.stats.ReopenAfterWork = true
 	}
@@ -675,6 +693,14 @@ func (r *seqRunner) doPrimaryGC(i int, op Op) *Violation {
 	if mp == nil {
 		return nil
 	}
+	if r.o.FlushBeforeGC {
+		if err := r.s.Flush(); err != nil {
+			return viol("flush-error|flush|"+errClass(err), i, "Flush: %v", err)
+		}
+	}
+	if r.o.FixedLowUse > 0 {
+		op.A = r.o.FixedLowUse
+	}
 	before, unflushed := r.gcPrologue()
 	_, err := mp.GC(gcCtx(op.B), int64(op.A))
 	r.gcEpilogue(opPGC, before, unflushed, err)
@@ -691,6 +717,11 @@ func (r *seqRunner) doPrimaryGC(i int, op Op) *Violation {
 }
 
 func (r *seqRunner) doIndexGC(i int, op Op) *Violation {
+	if r.o.FlushBeforeGC {
+		if err := r.s.Flush(); err != nil {
+			return viol("flush-error|flush|"+errClass(err), i, "Flush: %v", err)
+		}
+	}
 	before, unflushed := r.gcPrologue()
 	_, _, err := r.s.Index().VerifGC(gcCtx(op.B), op.A%2 == 1)
 	r.gcEpilogue(opIGC, before, unflushed, err)
